@@ -405,7 +405,10 @@ func (r *runner) steps(c hconn) {
 				r.rh.Add(s.KV.K, s.KV.V)
 			}
 		case "waitctx":
-			<-r.ctx.Done()
+			// (warm-up calls skip the wait as they skip the panic)
+			if r.call.ReqHeader.Get("X-Verif-No-Panic") == "" {
+				<-r.ctx.Done()
+			}
 		case "panic":
 			// calls carrying this header are warm-up calls: same handler, no panic
 			if r.call.ReqHeader.Get("X-Verif-No-Panic") == "" {
